@@ -242,8 +242,16 @@ Definition touchLocked (s : slot) (r0 : route) : slot :=
         end
       end.
 
+(* the unregister fence of an identity only moves up; it is recorded for every
+   sequence, zero included (tombstone, ok := ...; !ok || ownerSeq > tombstone) *)
+Definition raise_fence (m : list (ikey * N)) (k : ikey) (q : N) : list (ikey * N) :=
+  match al_get ikey_eqb k m with
+  | Some t => if t <? q then al_set ikey_eqb k q m else m
+  | None => al_set ikey_eqb k q m
+  end.
+
 Definition unregisterLocked (s : slot) (k : ikey) (oseq : N) : slot :=
-  let tomb := if seq_of k (sl_tomb s) <? oseq then al_set ikey_eqb k oseq (sl_tomb s) else sl_tomb s in
+  let tomb := raise_fence (sl_tomb s) k oseq in
   let oseqs := if seq_of k (sl_ownerSeq s) <? oseq then al_set ikey_eqb k oseq (sl_ownerSeq s) else sl_ownerSeq s in
   let s1 := Slot (sl_target s) (sl_active s) (sl_byUID s) (sl_pending s) oseqs tomb (sl_expiry s) (sl_nextID s) in
   let s2 := match al_get ikey_eqb k (sl_active s1) with
@@ -486,9 +494,8 @@ Definition tomb_step (localNode : N) (a : auth) (tb : tombs) (o : op) : tombs :=
     end
   | OLose hs => al_del N.eqb hs tb
   | OUnregister g k oseq =>
-    if accepted localNode a g then
-      let m := tomb_of tb (g_hs g) in
-      if seq_of k m <? oseq then al_set N.eqb (g_hs g) (al_set ikey_eqb k oseq m) tb else tb
+    if accepted localNode a g
+    then al_set N.eqb (g_hs g) (raise_fence (tomb_of tb (g_hs g)) k oseq) tb
     else tb
   | _ => tb
   end.
